@@ -500,7 +500,7 @@ func c03Rebase(r *fw.Run, c *c03x) {
 			if !ok {
 				continue
 			}
-			g := fw.Guard{Cond: ifi.Cond, True: true}.Normalize()
+			g := c03Norm(fw.Guard{Cond: ifi.Cond, True: true})
 			known, val := false, false
 			if c.pathOf(g.Cond).is(v, ".IsRoot") {
 				known, val = true, cs.isRoot
@@ -624,7 +624,7 @@ func c03Rebase(r *fw.Run, c *c03x) {
 			continue
 		}
 		mm := fa.minmax[0]
-		var vload *ssa.UnOp
+		var vload *ssa.UnOp // the instruction that reads v.Range (directly, or into a snapshot local)
 		var cell *ssa.Alloc
 		for _, a := range mm.Common().Args {
 			ld, ok := a.(*ssa.UnOp)
@@ -632,10 +632,19 @@ func c03Rebase(r *fw.Run, c *c03x) {
 				okExt = false
 				continue
 			}
-			if cl := c.cellOf(ld.X); cl != nil && c.isNamed(cl.Type(), c.rangeT) && cl != DR {
-				cell = cl
-			} else if c.pathOf(ld).is(v, ".Range") {
+			if c.pathOf(ld).is(v, ".Range") {
 				vload = ld
+				// old := v.Range; ... MinMax(extent, old): the read happens where the snapshot is taken
+				if cl := c.cellOf(ld.X); cl != nil {
+					vload = nil
+					if sv := c.singleVal(cl); sv != nil {
+						if sl, ok := c.canon(sv).(*ssa.UnOp); ok && sl.Op == token.MUL && sl.Parent() == W {
+							vload = sl
+						}
+					}
+				}
+			} else if cl := c.cellOf(ld.X); cl != nil && c.isNamed(cl.Type(), c.rangeT) && cl != DR {
+				cell = cl
 			}
 		}
 		if cell == nil || vload == nil || !c03Before(vload, fa.startStores[0]) || (MM != nil && MM != cell) {
@@ -709,7 +718,7 @@ func c03Rebase(r *fw.Run, c *c03x) {
 	}
 	extra := ""
 	for _, g := range fw.Guards(pc.Block()) {
-		gn := g.Normalize()
+		gn := c03Norm(g)
 		if c.pathOf(gn.Cond).is(opts, ".IsRoot") && gn.True {
 			hasIsRoot = true
 			continue
@@ -728,7 +737,7 @@ func c03Rebase(r *fw.Run, c *c03x) {
 		if !ok {
 			continue
 		}
-		g := fw.Guard{Cond: ifi.Cond, True: true}.Normalize()
+		g := c03Norm(fw.Guard{Cond: ifi.Cond, True: true})
 		if c.pathOf(g.Cond).is(opts, ".IsRoot") {
 			if g.True {
 				cut[[2]*ssa.BasicBlock{b, b.Succs[1]}] = true
